@@ -213,7 +213,15 @@ class Batch:
             o = ','.join(map(str, obs)) if not isinstance(obs, str) else ''
             lines.append(f"{b} | {','.join(map(str, p))} | {','.join(map(str, x))} | {o}")
         try:
-            outs = self._drive(lines)
+            try:
+                outs = self._drive(lines)
+            except ToolFailure:
+                # another check may be rebuilding a shared module right now (its .olean is missing for a moment):
+                # rebuild the driver's imports under the lake lock and try once more before giving up on the model
+                import common, time
+                common._DRIVER_BUILT.discard(self.driver)
+                time.sleep(5)
+                outs = self._drive(lines)
         except ToolFailure as e:
             if self.driver == 'Drv/C13.lean':
                 res.broken.append(('correspondence', 'blocks', f'model driver unavailable ({str(e)[:200]}); oracle runs on the '
